@@ -1,5 +1,9 @@
 import Scion.Model.Wire
 import Scion.Proofs.Wire
+import Scion.Model.WireExt
+import Scion.Proofs.WireExt
+import Scion.Model.ScmpMsg
+import Scion.Proofs.ScmpMsg
 import Scion.Gen.Wire
 import Scion.Gen.Path
 /-!
@@ -15,7 +19,7 @@ address lengths as declared by the address types, a well-formed path of the decl
 `HdrLen·4 = 12 + address header + path` (hence ≤ 1020 and a multiple of 4).
 -/
 namespace Scion.C18
-open Scion.Wire Scion.Util
+open Scion.Wire Scion.WireExt Scion.ScmpMsg Scion.Util
 
 /-- **value → bytes → value.**  Every well-formed header value serializes, and decoding the
 bytes (followed by any payload) yields the same field values and exactly that payload. -/
@@ -141,6 +145,125 @@ theorem overlong_hdrLen_rejected (data : Bytes) (c : Cmn) (rest : Bytes)
         simp only at hl
         omega
 
+
+/-! ### `scion.Decoded`: the info and hop fields inside a SCION path body -/
+
+/-- the fields of a decoded SCION path serialize to `8·#info + 12·#hops` bytes that decode to the
+same fields (`Decoded.SerializeTo` / `Decoded.DecodeFromBytes` loops) -/
+theorem path_fields_decode_serialize (is : List Info) (hs : List Hop) (rest : Bytes)
+    (hi : ∀ i ∈ is, i.WF) (hh : ∀ h ∈ hs, h.WF) :
+    (encInfos is ++ encHops hs).length = is.length * 8 + hs.length * 12 ∧
+    decInfos is.length (encInfos is ++ encHops hs ++ rest) = some (is, encHops hs ++ rest) ∧
+    decHops hs.length (encHops hs ++ rest) = some (hs, rest) := by
+  refine ⟨by simp [length_encInfos, length_encHops], ?_, decHops_encHops hs rest hh⟩
+  rw [List.append_assoc]
+  exact decInfos_encInfos is _ hi
+
+/-- a single info / hop field: re-encoding a decoded field clears the reserved bits only -/
+theorem info_field_serialize_decode (f r s0 s1 t0 t1 t2 t3 : UInt8) (i : Info)
+    (h : decInfo [f, r, s0, s1, t0, t1, t2, t3] = some i) :
+    encInfo i = [UInt8.ofNat (f.toNat % 4), 0, s0, s1, t0, t1, t2, t3] ∧ i.WF :=
+  encInfo_decInfo f r s0 s1 t0 t1 t2 t3 i h
+
+theorem hop_field_serialize_decode (f e i0 i1 e0 e1 m0 m1 m2 m3 m4 m5 : UInt8) (h : Hop)
+    (hd : decHop [f, e, i0, i1, e0, e1, m0, m1, m2, m3, m4, m5] = some h) :
+    encHop h = [UInt8.ofNat (f.toNat % 4), e, i0, i1, e0, e1, m0, m1, m2, m3, m4, m5] ∧ h.WF :=
+  encHop_decHop f e i0 i1 e0 e1 m0 m1 m2 m3 m4 m5 h hd
+
+/-! ### extension headers (HBH / E2E) with TLV options
+
+`decExt chk` is `HopByHopExtn.DecodeFromBytes` for `chk = hbhChk` and
+`EndToEndExtn.DecodeFromBytes` for `chk = e2eChk` (`decHBH`, `decE2E` are these instances);
+`encExt chk fix` is the corresponding `SerializeTo`. -/
+
+/-- value → bytes → value, as decoded values are re-serialized (no `FixLengths`) -/
+theorem ext_decode_serialize (chk : Nat → Bool) (e : Ext) (payload : Bytes) (hw : e.WF)
+    (hc : chk e.base.nextHdr = false) :
+    ∃ bytes, encExt chk false e = .ok bytes ∧ decExt chk (bytes ++ payload) = .ok (e, payload) :=
+  decExt_serialize chk e payload hw hc
+
+/-- value → bytes → value with `FixLengths`, for **arbitrary option lists** (any types, data up
+to 255 bytes, any alignment request `x·n+y` with `y < x`): the serializer inserts `Pad1`/`PadN`
+options, the result is a multiple of 4 bytes, it decodes, and the decoded options are the given
+ones plus padding options only (`contents` drops padding) with the same `NextHdr`.  The bound is
+the 8-bit `ExtLen`. -/
+theorem ext_decode_serialize_fix (chk : Nat → Bool) (nh el : Nat) (os : List Opt) (payload : Bytes)
+    (hnh : nh < 256) (hw : ∀ o ∈ os, o.FixWF) (hc : chk nh = false)
+    (hlen : (encOptsFix 2 os).length + 2 ≤ 1024) :
+    ∃ bytes x, encExt chk true ⟨⟨nh, el⟩, os⟩ = .ok bytes ∧ bytes.length % 4 = 0 ∧
+      decExt chk (bytes ++ payload) = .ok (x, payload) ∧ x.base.nextHdr = nh ∧
+      contents x.opts = contents os ∧ (x.base.extLen + 1) * 4 = bytes.length :=
+  decExt_serialize_fix chk nh el os payload hnh hw hc hlen
+
+/-- bytes → value → bytes: exact (extension headers have no reserved bits) -/
+theorem ext_serialize_decode (chk : Nat → Bool) (data : Bytes) (x : Ext) (payload : Bytes)
+    (h : decExt chk data = .ok (x, payload)) :
+    x.WF ∧ ∃ bytes, encExt chk false x = .ok bytes ∧ bytes ++ payload = data :=
+  serialize_decExt chk data x payload h
+
+/-- over-long `ExtLen` / `OptDataLen` and every other malformed input end in an error, never in
+an out-of-range slice -/
+theorem ext_decode_no_panic (chk : Nat → Bool) (data : Bytes) : decExt chk data ≠ .error .panic :=
+  decExt_ne_panic chk data
+
+/-- an `ExtLen` that declares more than the data holds is rejected -/
+theorem overlong_extLen_rejected (chk : Nat → Bool) (nh el : UInt8) (rest : Bytes)
+    (h : (nh :: el :: rest).length < (el.toNat + 1) * 4) :
+    decExt chk (nh :: el :: rest) = .error .extLen := by
+  have hb : decExtBase (nh :: el :: rest) = .error .extLen := by
+    simp only [decExtBase]
+    rw [if_pos h]
+  unfold decExt
+  rw [hb]
+
+/-! ### SCION/UDP and SCMP headers -/
+
+theorem udp_decode_serialize (u : UDP) (pl : Bytes) (hw : u.WF) (hl : u.length = 8 + pl.length) :
+    decUDP (encUDP u ++ pl) = .ok (u, pl) := decUDP_enc u pl hw hl
+
+theorem udp_serialize_decode (data : Bytes) (u : UDP) (pl : Bytes) (h : decUDP data = .ok (u, pl)) :
+    u.WF ∧ encUDP u = data.take 8 ∧ 8 ≤ data.length := encUDP_dec data u pl h
+
+theorem scmp_decode_serialize (h : SCMPHdr) (pl : Bytes) (hw : h.WF) :
+    decSCMP (encSCMP h ++ pl) = .ok (h, pl) := decSCMP_enc h pl hw
+
+theorem scmp_serialize_decode (data : Bytes) (h : SCMPHdr) (pl : Bytes)
+    (hd : decSCMP data = .ok (h, pl)) : h.WF ∧ encSCMP h ++ pl = data := encSCMP_dec data h pl hd
+
+/-! ### the SCMP message types
+
+`msgSpec typ` is the field layout of the layer `SCMP.NextLayerType` selects (all eight message
+layers: destination unreachable, packet too big, parameter problem, external interface down,
+internal connectivity down, echo request/reply, traceroute request/reply). -/
+
+/-- value → bytes → value for every SCMP message type -/
+theorem scmp_msg_decode_serialize (typ : Nat) (spec : List Field) (vs : List Nat) (rest : Bytes)
+    (hs : msgSpec typ = some spec) (hv : ValuesWF spec vs) :
+    decMsg spec (encFields spec vs ++ rest) = .ok (vs, rest) := by
+  unfold decMsg
+  rw [if_neg (by simp [length_encFields]), decFields_encFields spec vs rest (spec_ok typ spec hs) hv]
+
+/-- bytes → value → bytes for every SCMP message type: exact except reserved fields, which come
+out zero; a message shorter than its fixed fields is rejected without an out-of-range read -/
+theorem scmp_msg_serialize_decode (typ : Nat) (spec : List Field) (data : Bytes) (vs : List Nat)
+    (rest : Bytes) (hs : msgSpec typ = some spec) (h : decMsg spec data = .ok (vs, rest)) :
+    ValuesWF spec vs ∧ encFields spec vs ++ rest = zeroReserved spec data := by
+  unfold decMsg at h
+  split at h
+  · cases h
+  · split at h
+    · cases h
+    · rename_i r hr
+      cases h
+      exact encFields_decFields spec data vs rest (spec_ok typ spec hs) hr
+
+theorem scmp_msg_no_panic (spec : List Field) (data : Bytes) : decMsg spec data ≠ .error .panic :=
+  decMsg_ne_panic spec data
+
+theorem scmp_msg_short_rejected (spec : List Field) (data : Bytes) (h : data.length < totalLen spec) :
+    decMsg spec data = .error .short := by
+  unfold decMsg; rw [if_pos h]
+
 /-- layout constants the model uses, re-extracted from the source on every run -/
 theorem gen_consts :
     Scion.Gen.Wire.CmnHdrLen = 12 ∧ Scion.Gen.Wire.LineLen = 4 ∧ Scion.Gen.Wire.MaxHdrLen = 1020 ∧
@@ -160,5 +283,10 @@ def exHdr : Hdr :=
     path := .scion ⟨1, 2, 2, 1, 0⟩ (List.replicate 52 7) }
 
 example : exHdr.WF := by decide
+
+/-- options with alignment requests as the SPAO (4n+2) and others use them -/
+def exOpts : List Opt :=
+  [⟨2, 0, [1, 2, 3, 4, 5, 6, 7, 8, 9, 10, 11, 12, 13, 14, 15, 16], 4, 2⟩, ⟨77, 0, [9], 8, 3⟩, ⟨0, 0, [], 0, 0⟩]
+example : (∀ o ∈ exOpts, o.FixWF) ∧ (encOptsFix 2 exOpts).length + 2 ≤ 1024 := by decide
 
 end Scion.C18
